@@ -5,7 +5,7 @@
 cd /verif
 PROPS="$@"; [ -z "$PROPS" ] && PROPS="C01 C02 C03 C04 C05 C06 C07 C08 C09 C10 C11 C12 C13 C14 C15 C16 C17 C18 C19 C20"
 S=/tmp/ftall_$$; rm -rf $S; mkdir -p $S
-for d in features/F[TU]*/; do
+for d in features/F[TUV]*/; do
   k=$(basename $d); mkdir -p $S/$k; cp -r /repo/pyrates $S/$k/pyrates
   (cd $S/$k && patch -p1 -s --no-backup-if-mismatch < /verif/$d/patch.diff >/dev/null 2>&1) || echo "$k PATCH-FAILED"
 done
